@@ -571,3 +571,53 @@ func (p *Pool) Put(x any) {
 	p.fresh(e)
 	e.simple(t, "pool.put", func() { p.items = append(p.items, x) }, &p.h)
 }
+
+// Map replaces sync.Map: every operation is a scheduling point followed by the real operation
+// (the map's contents are ordinary Go data: they are not reset between executions, exactly like a
+// package-level map guarded by a Mutex). Range calls f outside the point, on the real map.
+type Map struct {
+	real sync.Map
+	h    uint64
+}
+
+func (m *Map) pt(desc string, f func()) {
+	e, t := managed()
+	if t == nil {
+		if f != nil {
+			f()
+		}
+		return
+	}
+	e.simple(t, desc, f, &m.h)
+}
+
+func (m *Map) Load(key any) (value any, ok bool) {
+	m.pt("syncmap.load", func() { value, ok = m.real.Load(key) })
+	return
+}
+func (m *Map) Store(key, value any) { m.pt("syncmap.store", func() { m.real.Store(key, value) }) }
+func (m *Map) LoadOrStore(key, value any) (actual any, loaded bool) {
+	m.pt("syncmap.loadorstore", func() { actual, loaded = m.real.LoadOrStore(key, value) })
+	return
+}
+func (m *Map) LoadAndDelete(key any) (value any, loaded bool) {
+	m.pt("syncmap.loadanddelete", func() { value, loaded = m.real.LoadAndDelete(key) })
+	return
+}
+func (m *Map) Delete(key any) { m.pt("syncmap.delete", func() { m.real.Delete(key) }) }
+func (m *Map) Swap(key, value any) (previous any, loaded bool) {
+	m.pt("syncmap.swap", func() { previous, loaded = m.real.Swap(key, value) })
+	return
+}
+func (m *Map) CompareAndSwap(key, old, new any) (swapped bool) {
+	m.pt("syncmap.cas", func() { swapped = m.real.CompareAndSwap(key, old, new) })
+	return
+}
+func (m *Map) CompareAndDelete(key, old any) (deleted bool) {
+	m.pt("syncmap.cad", func() { deleted = m.real.CompareAndDelete(key, old) })
+	return
+}
+func (m *Map) Range(f func(key, value any) bool) {
+	m.pt("syncmap.range", nil)
+	m.real.Range(f)
+}
